@@ -1,4 +1,10 @@
 import VlsModel.Gen.FnTrackerRestore
+import VlsModel.Gen.FnBackup
+import VlsModel.Gen.FnKvvPersist
+import VlsModel.Gen.FnPersistModel
+import VlsModel.Gen.FnKvvKeys
+import VlsModel.Gen.FnKvvPass
+import VlsModel.Model.Backup
 import VlsModel.Lemmas.FnGen
 /-
 C11 — companion module: functions of the restore path translated from the Rust source on every run
@@ -48,4 +54,425 @@ theorem C11_fn_tracker_restore_listener {Headers Network Key L PublicKey V : Typ
       · have hb : (k0 != k) = true := by simpa using h
         simp only [List.filter, hb, Rs.omapGet, h, if_false]
         exact ih
+
+/-! ## `BackupPersister` (vls-persist/src/backup_persister.rs), translated from the source on every run
+
+Target list `translate/fn_targets/Backup.b1012.json`.  The two underlying persisters are generic (`M`, `B : Persist`);
+their methods are declared externals, i.e. explicit parameters: every theorem below holds for **all** implementations
+of the two stores.  `initial_restore_complete : AtomicBool` is read through the external `load`. -/
+section Backup
+open VlsModel.Gen.FnBackup VlsModel.Backup
+
+/-- the form of the nine writing methods: `if ready { main.m(..)?; } backup.m(..)` -/
+def writeForm (ready : Bool) (m b : Rs.M Unit) : Rs.M Unit := if ready then (m >>= fun _ => b) else b
+/-- the form of the five reading methods: `if ready { main.m(..) } else { backup.m(..) }` -/
+def readForm {α : Type} (ready : Bool) (m b : Rs.M α) : Rs.M α := if ready then m else b
+
+/-- **C11_fn_backup_main_is_ready**: `main_is_ready` of the source is the model's `Comp.mainReady`
+    (`!main.recovery_required() || initial_restore_complete`), whatever memory ordering the load names. -/
+theorem C11_fn_backup_main_is_ready (c : Comp) :
+    BackupPersister.main_is_ready (M := Store) (AtomicBool := Bool) (B := Store) (fun s => s.needsRecovery) (fun b _ => b)
+      ⟨c.main, c.backup, c.restoreDone⟩ = c.mainReady := rfl
+
+variable {M AtomicBool B PublicKey NodeConfig NodeState ChannelStub ChannelId ChainTracker Channel ValidatorFactory
+  ChainTrackerListenerEntry CoreChannelEntry CoreNodeEntry : Type}
+  (rr : M → Bool) (ld : AtomicBool → Gen.FnBackup.Ordering → Bool) (self : BackupPersister M AtomicBool B)
+
+/-- **C11_fn_backup_writes**: each of the nine writing methods of `impl Persist for BackupPersister`, as it is in
+    the source now, *is* `writeForm`: the main store is written first and only when it is ready, its error is
+    returned before the backup is touched, and the backup is written in every other case and decides the result.
+    A method that wrote the backup first, skipped it, swallowed the main store's error or ignored the readiness
+    flag changes the translated body and breaks its conjunct. -/
+theorem C11_fn_backup_writes (node_id : PublicKey) :
+    (∀ (em : M → PublicKey → NodeConfig → NodeState → Rs.M Unit) (eb : B → PublicKey → NodeConfig → NodeState → Rs.M Unit) cfg st,
+      BackupPersister.new_node rr ld em eb self node_id cfg st
+        = writeForm (BackupPersister.main_is_ready rr ld self) (em self.main node_id cfg st) (eb self.backup node_id cfg st)) ∧
+    (∀ (em : M → PublicKey → NodeState → Rs.M Unit) (eb : B → PublicKey → NodeState → Rs.M Unit) st,
+      BackupPersister.update_node rr ld em eb self node_id st
+        = writeForm (BackupPersister.main_is_ready rr ld self) (em self.main node_id st) (eb self.backup node_id st)) ∧
+    (∀ (em : M → PublicKey → Rs.M Unit) (eb : B → PublicKey → Rs.M Unit),
+      BackupPersister.delete_node rr ld em eb self node_id
+        = writeForm (BackupPersister.main_is_ready rr ld self) (em self.main node_id) (eb self.backup node_id)) ∧
+    (∀ (em : M → PublicKey → ChannelStub → Rs.M Unit) (eb : B → PublicKey → ChannelStub → Rs.M Unit) stub,
+      BackupPersister.new_channel rr ld em eb self node_id stub
+        = writeForm (BackupPersister.main_is_ready rr ld self) (em self.main node_id stub) (eb self.backup node_id stub)) ∧
+    (∀ (em : M → PublicKey → ChannelId → Rs.M Unit) (eb : B → PublicKey → ChannelId → Rs.M Unit) cid,
+      BackupPersister.delete_channel rr ld em eb self node_id cid
+        = writeForm (BackupPersister.main_is_ready rr ld self) (em self.main node_id cid) (eb self.backup node_id cid)) ∧
+    (∀ (em : M → PublicKey → ChainTracker → Rs.M Unit) (eb : B → PublicKey → ChainTracker → Rs.M Unit) t,
+      BackupPersister.new_tracker rr ld em eb self node_id t
+        = writeForm (BackupPersister.main_is_ready rr ld self) (em self.main node_id t) (eb self.backup node_id t)) ∧
+    (∀ (em : M → PublicKey → ChainTracker → Rs.M Unit) (eb : B → PublicKey → ChainTracker → Rs.M Unit) t,
+      BackupPersister.update_tracker rr ld em eb self node_id t
+        = writeForm (BackupPersister.main_is_ready rr ld self) (em self.main node_id t) (eb self.backup node_id t)) ∧
+    (∀ (em : M → PublicKey → Channel → Rs.M Unit) (eb : B → PublicKey → Channel → Rs.M Unit) ch,
+      BackupPersister.update_channel rr ld em eb self node_id ch
+        = writeForm (BackupPersister.main_is_ready rr ld self) (em self.main node_id ch) (eb self.backup node_id ch)) ∧
+    (∀ (em : M → PublicKey → List String → Rs.M Unit) (eb : B → PublicKey → List String → Rs.M Unit) al,
+      BackupPersister.update_node_allowlist rr ld em eb self node_id al
+        = writeForm (BackupPersister.main_is_ready rr ld self) (em self.main node_id al) (eb self.backup node_id al)) := by
+  refine ⟨?_, ?_, ?_, ?_, ?_, ?_, ?_, ?_, ?_⟩ <;> intros <;>
+    (first
+      | unfold BackupPersister.new_node | unfold BackupPersister.update_node | unfold BackupPersister.delete_node
+      | unfold BackupPersister.new_channel | unfold BackupPersister.delete_channel | unfold BackupPersister.new_tracker
+      | unfold BackupPersister.update_tracker | unfold BackupPersister.update_channel
+      | unfold BackupPersister.update_node_allowlist) <;>
+    unfold writeForm <;> generalize BackupPersister.main_is_ready rr ld self = r <;> cases r <;> rfl
+
+/-- **C11_fn_backup_reads**: each of the five reading methods asks the main store when it is ready and the backup
+    otherwise — never both, never the backup while the main store is ready. -/
+theorem C11_fn_backup_reads (node_id : PublicKey) :
+    (∀ (em : M → PublicKey → ValidatorFactory → Rs.M (ChainTracker × List ChainTrackerListenerEntry))
+       (eb : B → PublicKey → ValidatorFactory → Rs.M (ChainTracker × List ChainTrackerListenerEntry)) vf,
+      BackupPersister.get_tracker rr ld em eb self node_id vf
+        = readForm (BackupPersister.main_is_ready rr ld self) (em self.main node_id vf) (eb self.backup node_id vf)) ∧
+    (∀ (em : M → PublicKey → ChannelId → Rs.M CoreChannelEntry) (eb : B → PublicKey → ChannelId → Rs.M CoreChannelEntry) cid,
+      BackupPersister.get_channel rr ld em eb self node_id cid
+        = readForm (BackupPersister.main_is_ready rr ld self) (em self.main node_id cid) (eb self.backup node_id cid)) ∧
+    (∀ (em : M → PublicKey → Rs.M (List (ChannelId × CoreChannelEntry))) (eb : B → PublicKey → Rs.M (List (ChannelId × CoreChannelEntry))),
+      BackupPersister.get_node_channels rr ld em eb self node_id
+        = readForm (BackupPersister.main_is_ready rr ld self) (em self.main node_id) (eb self.backup node_id)) ∧
+    (∀ (em : M → PublicKey → Rs.M (List String)) (eb : B → PublicKey → Rs.M (List String)),
+      BackupPersister.get_node_allowlist rr ld em eb self node_id
+        = readForm (BackupPersister.main_is_ready rr ld self) (em self.main node_id) (eb self.backup node_id)) ∧
+    (∀ (em : M → Rs.M (List (PublicKey × CoreNodeEntry))) (eb : B → Rs.M (List (PublicKey × CoreNodeEntry))),
+      BackupPersister.get_nodes rr ld em eb self
+        = readForm (BackupPersister.main_is_ready rr ld self) (em self.main) (eb self.backup)) :=
+  ⟨fun _ _ _ => rfl, fun _ _ _ => rfl, fun _ _ => rfl, fun _ _ => rfl, fun _ _ => rfl⟩
+
+/-- **C11_fn_backup_clear_database**: both stores, unguarded, main first (`main.clear_database()?; backup.clear_database()`). -/
+theorem C11_fn_backup_clear_database (em : M → Rs.M Unit) (eb : B → Rs.M Unit) :
+    BackupPersister.clear_database em eb self = (em self.main >>= fun _ => eb self.backup) := rfl
+
+/-- **C11_fn_backup_signer_id**: the composite answers with the main store's id. -/
+theorem C11_fn_backup_signer_id (em : M → List Nat) : BackupPersister.signer_id (B := B) (AtomicBool := AtomicBool) em self = em self.main := rfl
+
+/-- what a call of a model store answers: an error iff the store refuses writes -/
+def isOk (r : Rs.M Unit) : Bool := match r with | .ok _ => true | .error _ => false
+def callOf (s : Store) : Rs.M Unit := if s.failing then .error (.err "Error") else .ok ()
+/-- the entry written into a store that accepts the write -/
+def putE (s : Store) (k : Nat) (v : Option Nat) : Store := { s with data := fun x => if x = k then v else s.data x }
+
+/-- **C11_fn_backup_write_model**: the hand-written `Comp.write` of `Model/Backup.lean` (on which the `C11_backup_*`
+    theorems of `Props/C11Gen.lean` are proved) is `writeForm` run on the two model stores: its result is the form's
+    result, the main store is written iff the form reaches its call (ready) and the call succeeds, the backup is
+    written iff the whole form succeeds (its call is the last one), and nothing else changes. -/
+theorem C11_fn_backup_write_model (c : Comp) (k : Nat) (v : Option Nat) :
+    let r := writeForm c.mainReady (callOf c.main) (callOf c.backup)
+    (c.write k v).2 = (if isOk r then Res.ok else Res.err) ∧
+    (c.write k v).1.main = (if c.mainReady = true ∧ c.main.failing = false then putE c.main k v else c.main) ∧
+    (c.write k v).1.backup = (if isOk r then putE c.backup k v else c.backup) ∧
+    (c.write k v).1.restoreDone = c.restoreDone := by
+  unfold Comp.write writeForm callOf Store.write putE isOk
+  cases hr : c.mainReady <;> cases hm : c.main.failing <;> cases hb : c.backup.failing <;> simp [bind, Except.bind]
+
+/-- **C11_fn_backup_update_node_model**: the translated `update_node` (and, by `C11_fn_backup_writes`, every writing
+    method) run on the model's stores acknowledges exactly when `Comp.write` does. -/
+theorem C11_fn_backup_update_node_model (c : Comp) (k : Nat) (v : Option Nat) :
+    (BackupPersister.update_node (M := Store) (AtomicBool := Bool) (B := Store) (PublicKey := Nat) (NodeState := Option Nat)
+        (fun s => s.needsRecovery) (fun b _ => b) (fun s _ _ => callOf s) (fun s _ _ => callOf s)
+        ⟨c.main, c.backup, c.restoreDone⟩ k v = .ok ()) ↔ (c.write k v).2 = Res.ok := by
+  have h := (C11_fn_backup_writes (NodeConfig := Unit) (ChannelStub := Unit) (ChannelId := Unit) (ChainTracker := Unit) (Channel := Unit)
+    (fun s : Store => s.needsRecovery) (fun (b : Bool) _ => b) ⟨c.main, c.backup, c.restoreDone⟩ k).2.1
+    (fun s _ _ => callOf s) (fun s _ _ => callOf s) v
+  rw [h, C11_fn_backup_main_is_ready, (C11_fn_backup_write_model c k v).1]
+  generalize writeForm c.mainReady (callOf c.main) (callOf c.backup) = r
+  cases r <;> simp [isOk]
+
+/-- non-vacuity: a ready composite with a failing backup acknowledges nothing although the main store was written
+    (the main store is ahead — the case `C11_backup_refused` speaks about) -/
+example : ∃ c : Comp, (c.write 1 (some 2)).2 = Res.err ∧ (c.write 1 (some 2)).1.main.data 1 = some 2 ∧
+    writeForm c.mainReady (callOf c.main) (callOf c.backup) = .error (.err "Error") :=
+  ⟨⟨⟨fun _ => none, false, false⟩, ⟨fun _ => none, true, false⟩, false⟩, rfl, rfl, rfl⟩
+
+end Backup
+
+/-! ## `impl Persist for KVVPersister` (vls-persist/src/kvv.rs) and the entry conversions (model.rs), translated on every run
+
+Target lists `translate/fn_targets/KvvPersist.b1012.json`, `PersistModel.b1012.json`.  Externals (explicit parameters, the
+theorems hold for all of them): the store's `put` / `get` / `delete` (reached through `Deref`), the key makers
+`make_key` / `make_key2`, `PublicKey::serialize`, `ChannelId::as_slice`, `EnforcementState::new`, and the value format
+`F::ser_value` / `F::de_value` at each entry type (a declared normalisation names the instance: the trait function is
+generic).  What a `put` does to a later `get` is the store's contract (C16); what the format does is `ValueFormat`'s:
+both appear as hypotheses `hget`, `hde` below — the theorems say what the *persister code between them* keeps. -/
+section Kvv
+open VlsModel.Gen.FnKvvPersist
+
+variable {SelfT PublicKey ChannelId EnforcementState NodeState ChainTracker ValidatorFactory ChainTrackerListenerEntry : Type}
+  (sz : PublicKey → List Nat) (sl : ChannelId → List Nat) (mk : String → List Nat → String)
+  (mk2 : String → List Nat → List Nat → String)
+  (put : String → List Nat → Rs.M Unit) (get : String → Rs.M (Option (Nat × List Nat))) (del : String → Rs.M Unit)
+  (self : SelfT) (node_id : PublicKey)
+
+/-- the entry `update_channel` computes from a channel: every durable field of the channel, nothing defaulted -/
+def entryOfChannel (ch : Channel ChannelId EnforcementState) : ChannelEntry ChannelId EnforcementState :=
+  { channel_value_satoshis := ch.setup.channel_value_sat, channel_setup := some ch.setup, id := ch.id,
+    enforcement_state := ch.enforcement_state, blockheight := none }
+
+/-- **C11_fn_kvv_update_channel**: `update_channel` serialises exactly `entryOfChannel channel` — the channel's own
+    enforcement state (counters, commitment contents, points, secrets, closed flag all live there), its setup and its
+    permanent id — and puts it under the key made from the node id and the channel's *initial* id.  A fresh
+    enforcement state, a dropped id or another key changes the translated body and breaks this equation. -/
+theorem C11_fn_kvv_update_channel (ser : ChannelEntry ChannelId EnforcementState → Rs.M (List Nat))
+    (ch : Channel ChannelId EnforcementState) :
+    KVVPersister.update_channel sz sl mk2 ser put self node_id ch
+      = (ser (entryOfChannel ch) >>= fun v => put (mk2 "channel" (sz node_id) (sl ch.id0)) v) := rfl
+
+/-- **C11_fn_kvv_new_channel**: a stub is written under the same kind of key with its birth block height, no setup, no
+    permanent id and the enforcement state `EnforcementState::new(0)`. -/
+theorem C11_fn_kvv_new_channel (ser : ChannelEntry ChannelId EnforcementState → Rs.M (List Nat)) (esNew : Nat → EnforcementState)
+    (stub : ChannelStub ChannelId) :
+    KVVPersister.new_channel sz sl mk2 esNew ser put self node_id stub
+      = (ser { channel_value_satoshis := 0, channel_setup := none, id := none, enforcement_state := esNew 0,
+               blockheight := some stub.blockheight } >>= fun v => put (mk2 "channel" (sz node_id) (sl stub.id0)) v) := rfl
+
+/-- **C11_fn_kvv_get_channel**: `get_channel` reads the key made the same way, panics when there is no entry
+    (`expect("channel not found")`), decodes the value and converts it with `CoreChannelEntry::from`. -/
+theorem C11_fn_kvv_get_channel (de : List Nat → Rs.M (ChannelEntry ChannelId EnforcementState)) (cid : ChannelId) :
+    KVVPersister.get_channel sz sl mk2 get de self node_id cid
+      = (get (mk2 "channel" (sz node_id) (sl cid)) >>= fun o => Rs.unwrap o >>= fun vv => de vv.2 >>= fun e =>
+          pure (CoreChannelEntry.«from» e)) := rfl
+
+/-- **C11_fn_kvv_channel_roundtrip** (`restore ∘ persist = id` on the durable fields of a channel): let `update_channel`
+    have serialised its entry to `b`; if the store then answers the channel's key with `b` (any version) and the format
+    decodes `b` to what was encoded, `get_channel` under the channel's initial id returns the channel's enforcement
+    state, setup and permanent id unchanged, and `blockheight = none` (by which `new_from_persistence` tells a channel
+    from a stub). -/
+theorem C11_fn_kvv_channel_roundtrip (ser : ChannelEntry ChannelId EnforcementState → Rs.M (List Nat))
+    (de : List Nat → Rs.M (ChannelEntry ChannelId EnforcementState)) (ch : Channel ChannelId EnforcementState)
+    (b : List Nat) (ver : Nat) (hser : ser (entryOfChannel ch) = .ok b)
+    (hget : get (mk2 "channel" (sz node_id) (sl ch.id0)) = .ok (some (ver, b)))
+    (hde : ∀ e, ser e = .ok b → de b = .ok e) :
+    KVVPersister.update_channel sz sl mk2 ser put self node_id ch = put (mk2 "channel" (sz node_id) (sl ch.id0)) b ∧
+    KVVPersister.get_channel sz sl mk2 get de self node_id ch.id0
+      = .ok { channel_value_satoshis := ch.setup.channel_value_sat, channel_setup := some ch.setup, id := ch.id,
+              enforcement_state := ch.enforcement_state, blockheight := none } := by
+  constructor
+  · rw [C11_fn_kvv_update_channel, hser]; rfl
+  · rw [C11_fn_kvv_get_channel, hget]
+    simp [bind, Except.bind, Rs.unwrap, pure, Except.pure, hde _ hser, CoreChannelEntry.«from», entryOfChannel]
+
+/-- the same for a stub: it comes back as a stub (`blockheight = some _`, no setup) with the fresh enforcement state -/
+theorem C11_fn_kvv_stub_roundtrip (ser : ChannelEntry ChannelId EnforcementState → Rs.M (List Nat)) (esNew : Nat → EnforcementState)
+    (de : List Nat → Rs.M (ChannelEntry ChannelId EnforcementState)) (stub : ChannelStub ChannelId)
+    (b : List Nat) (ver : Nat)
+    (hser : ser { channel_value_satoshis := 0, channel_setup := none, id := none, enforcement_state := esNew 0,
+                  blockheight := some stub.blockheight } = .ok b)
+    (hget : get (mk2 "channel" (sz node_id) (sl stub.id0)) = .ok (some (ver, b)))
+    (hde : ∀ e, ser e = .ok b → de b = .ok e) :
+    KVVPersister.get_channel sz sl mk2 get de self node_id stub.id0
+      = .ok { channel_value_satoshis := 0, channel_setup := none, id := none, enforcement_state := esNew 0,
+              blockheight := some stub.blockheight } := by
+  rw [C11_fn_kvv_get_channel, hget]
+  simp [bind, Except.bind, Rs.unwrap, pure, Except.pure, hde _ hser, CoreChannelEntry.«from»]
+
+/-- **C11_fn_kvv_channel_entry_from**: the conversion of the stored entry into the core entry (model.rs) keeps all five
+    fields (also as translated on its own in area `PersistModel`). -/
+theorem C11_fn_kvv_channel_entry_from (e : ChannelEntry ChannelId EnforcementState)
+    {CS : Type} (e' : Gen.FnPersistModel.ChannelEntry CS ChannelId EnforcementState) :
+    (CoreChannelEntry.«from» e).channel_value_satoshis = e.channel_value_satoshis ∧
+    (CoreChannelEntry.«from» e).channel_setup = e.channel_setup ∧ (CoreChannelEntry.«from» e).id = e.id ∧
+    (CoreChannelEntry.«from» e).enforcement_state = e.enforcement_state ∧ (CoreChannelEntry.«from» e).blockheight = e.blockheight ∧
+    (Gen.FnPersistModel.CoreChannelEntry.«from» e').channel_value_satoshis = e'.channel_value_satoshis ∧
+    (Gen.FnPersistModel.CoreChannelEntry.«from» e').channel_setup = e'.channel_setup ∧
+    (Gen.FnPersistModel.CoreChannelEntry.«from» e').id = e'.id ∧
+    (Gen.FnPersistModel.CoreChannelEntry.«from» e').enforcement_state = e'.enforcement_state ∧
+    (Gen.FnPersistModel.CoreChannelEntry.«from» e').blockheight = e'.blockheight :=
+  ⟨rfl, rfl, rfl, rfl, rfl, rfl, rfl, rfl, rfl, rfl⟩
+
+/-- **C11_fn_kvv_delete_channel**: deletes exactly the key `update_channel` / `new_channel` write. -/
+theorem C11_fn_kvv_delete_channel (cid : ChannelId) :
+    KVVPersister.delete_channel sz sl mk2 del self node_id cid = del (mk2 "channel" (sz node_id) (sl cid)) := rfl
+
+/-- **C11_fn_kvv_allowlist**: `update_node_allowlist` stores the list it is given (as the one field of its entry) under the
+    node's allowlist key and `get_node_allowlist` returns the decoded entry's list: with the store and format hypotheses
+    as above, the allowlist read back is the allowlist written. -/
+theorem C11_fn_kvv_allowlist (ser : AllowlistItemEntry → Rs.M (List Nat)) (de : List Nat → Rs.M AllowlistItemEntry)
+    (al : List String) :
+    KVVPersister.update_node_allowlist sz mk ser put self node_id al
+      = (ser { allowlist := al } >>= fun v => put (mk "node/allowlist" (sz node_id)) v) ∧
+    (∀ b ver, ser { allowlist := al } = .ok b → get (mk "node/allowlist" (sz node_id)) = .ok (some (ver, b)) →
+      (∀ e, ser e = .ok b → de b = .ok e) →
+      KVVPersister.get_node_allowlist sz mk get de self node_id = .ok al) := by
+  refine ⟨rfl, ?_⟩
+  intro b ver hser hget hde
+  unfold KVVPersister.get_node_allowlist
+  simp [hget, bind, Except.bind, Rs.unwrap, pure, Except.pure, hde _ hser]
+
+/-- **C11_fn_kvv_update_node**: the node state is converted by `NodeStateEntry::from` (external here; its field dataflow is
+    `C11_gen_census_node`), serialised and put under the node's state key; `delete_node` removes the node entry and then
+    the state entry (the first error is returned). -/
+theorem C11_fn_kvv_update_node {PS : Type} (conv : NodeState → NodeStateEntry PS) (ser : NodeStateEntry PS → Rs.M (List Nat)) (st : NodeState) :
+    KVVPersister.update_node sz mk conv ser put self node_id st
+      = (ser (conv st) >>= fun v => put (mk "node/state" (sz node_id)) v) ∧
+    KVVPersister.delete_node sz mk del self node_id
+      = (del (mk "node/entry" (sz node_id)) >>= fun _ => del (mk "node/state" (sz node_id))) := ⟨rfl, rfl⟩
+
+/-- **C11_fn_kvv_tracker**: `update_tracker` converts (`ChainTrackerEntry::from`, external; dataflow `C11_gen_census_tracker`),
+    serialises and puts under the node's tracker key; `new_tracker` is `update_tracker`; `get_tracker` reads that key
+    (panic when absent), decodes and returns `into_tracker` of the decoded entry (whose last stage is
+    `C11_fn_tracker_restore`): with the store and format hypotheses the tracker restored is `into_tracker (from tracker)`. -/
+theorem C11_fn_kvv_tracker {TE : Type} (conv : ChainTracker → TE) (ser : TE → Rs.M (List Nat)) (de : List Nat → Rs.M TE)
+    (into : TE → PublicKey → ValidatorFactory → ChainTracker × List ChainTrackerListenerEntry) (t : ChainTracker) (vf : ValidatorFactory) :
+    KVVPersister.update_tracker sz mk conv ser put self node_id t
+      = (ser (conv t) >>= fun v => put (mk "node/tracker" (sz node_id)) v) ∧
+    KVVPersister.new_tracker sz mk conv ser put self node_id t = KVVPersister.update_tracker sz mk conv ser put self node_id t ∧
+    (∀ b ver, ser (conv t) = .ok b → get (mk "node/tracker" (sz node_id)) = .ok (some (ver, b)) →
+      (∀ e, ser e = .ok b → de b = .ok e) →
+      KVVPersister.get_tracker sz mk get de into self node_id vf = .ok (into (conv t) node_id vf)) := by
+  refine ⟨rfl, rfl, ?_⟩
+  intro b ver hser hget hde
+  unfold KVVPersister.get_tracker
+  simp [hget, bind, Except.bind, Rs.unwrap, pure, Except.pure, hde _ hser]
+
+
+/-- **C11_fn_kvv_get_nodes** (the restore of the node state, `get_nodes`, as it is in the source now): for a store that
+    lists one live node entry (tombstones — empty values — are filtered out before), the node comes back as
+    `NodeState::restore` of the *decoded state entry's own fields, each in its own position*: invoices, issued invoices,
+    preimages, the two velocity controls converted by `CoreVelocityControl::from` (payments control first, fee control
+    second), the channel-id high-water mark, and the allowlist read back for this node; `excess_amount` is 0 (not
+    durable, by design).  The state entry is read under the key `update_node` writes (`C11_fn_kvv_update_node`).  A
+    restore that passed 0 for the high-water mark, swapped the controls, or dropped the issued invoices changes the
+    translated body and breaks this equation. -/
+theorem C11_fn_kvv_get_nodes {Network Allowable PS : Type}
+    (getp : String → Rs.M (List (String × (Nat × List Nat)))) (suffix : String → String → Rs.M (List Nat))
+    (fromSlice : List Nat → Option PublicKey) (deNode : List Nat → Rs.M NodeEntry)
+    (deState : List Nat → Rs.M (NodeStateEntry PS)) (parse : String → Rs.M Network)
+    (ral : PublicKey → Network → Rs.M (List Allowable))
+    (restore : List (List Nat × PS) → List (List Nat × PS) → List (List Nat) → Nat → CoreVelocityControl → CoreVelocityControl →
+      Nat → List Allowable → NodeState)
+    (key : String) (r : Nat) (value suf sv : List Nat) (nid : PublicKey) (entry : NodeEntry) (ver : Nat)
+    (se : NodeStateEntry PS) (net : Network) (al : List Allowable)
+    (hpre : getp (("node/entry" : String) ++ "/") = .ok [(key, (r, value))]) (hne : value.isEmpty = false)
+    (hsuf : suffix (("node/entry" : String) ++ "/") key = .ok suf) (hpk : fromSlice suf = some nid)
+    (hde : deNode value = .ok entry) (hget : get (mk "node/state" (sz nid)) = .ok (some (ver, sv)))
+    (hds : deState sv = .ok se) (hnet : parse entry.network = .ok net) (hal : ral nid net = .ok al) :
+    KVVPersister.get_nodes getp suffix fromSlice deNode sz mk get deState parse ral restore self
+      = .ok [(nid, { key_derivation_style := entry.key_derivation_style, network := entry.network,
+                     state := restore se.invoices se.issued_invoices se.preimages 0
+                       (CoreVelocityControl.«from» se.velocity_control) (CoreVelocityControl.«from» se.fee_velocity_control)
+                       se.dbid_high_water_mark al })] := by
+  unfold KVVPersister.get_nodes
+  simp only [hpre, bind, Except.bind, pure, Except.pure, List.filter, hne, Bool.not_false, List.foldlM, hsuf, hpk, Rs.unwrap, hde,
+    hget, Rs.okOr, hds, hnet, hal, List.nil_append]
+
+/-- a tombstone (empty value) is not a node: a deleted node does not come back -/
+theorem C11_fn_kvv_get_nodes_tombstone {Network Allowable PS : Type}
+    (getp : String → Rs.M (List (String × (Nat × List Nat)))) (suffix : String → String → Rs.M (List Nat))
+    (fromSlice : List Nat → Option PublicKey) (deNode : List Nat → Rs.M NodeEntry)
+    (deState : List Nat → Rs.M (NodeStateEntry PS)) (parse : String → Rs.M Network)
+    (ral : PublicKey → Network → Rs.M (List Allowable))
+    (restore : List (List Nat × PS) → List (List Nat × PS) → List (List Nat) → Nat → CoreVelocityControl → CoreVelocityControl →
+      Nat → List Allowable → NodeState) (key : String) (r : Nat)
+    (hpre : getp (("node/entry" : String) ++ "/") = .ok [(key, (r, []))]) :
+    KVVPersister.get_nodes getp suffix fromSlice deNode sz mk get deState parse ral restore self = .ok [] := by
+  unfold KVVPersister.get_nodes
+  simp only [hpre, bind, Except.bind, pure, Except.pure, List.filter, List.isEmpty, Bool.not_true, List.foldlM]
+
+/-- **C11_fn_kvv_node_roundtrip** (`restore ∘ persist` for the node state): what `update_node` serialised (`conv st`,
+    `conv` = `NodeStateEntry::from`) and the store and format give back is restored field by field; in particular the
+    persisted velocity controls come back through `CoreVelocityControl::from ∘ VelocityControl::from = id`
+    (`C12_fn_persisted_control_roundtrip`) when `conv` stores them with `VelocityControl::from`. -/
+theorem C11_fn_kvv_node_roundtrip {Network Allowable PS : Type}
+    (getp : String → Rs.M (List (String × (Nat × List Nat)))) (suffix : String → String → Rs.M (List Nat))
+    (fromSlice : List Nat → Option PublicKey) (deNode : List Nat → Rs.M NodeEntry)
+    (ser : NodeStateEntry PS → Rs.M (List Nat)) (deState : List Nat → Rs.M (NodeStateEntry PS)) (parse : String → Rs.M Network)
+    (ral : PublicKey → Network → Rs.M (List Allowable)) (conv : NodeState → NodeStateEntry PS)
+    (restore : List (List Nat × PS) → List (List Nat × PS) → List (List Nat) → Nat → CoreVelocityControl → CoreVelocityControl →
+      Nat → List Allowable → NodeState)
+    (st : NodeState) (key : String) (r : Nat) (value suf b : List Nat) (nid : PublicKey) (entry : NodeEntry) (ver : Nat)
+    (net : Network) (al : List Allowable)
+    (hser : ser (conv st) = .ok b) (hfmt : ∀ e, ser e = .ok b → deState b = .ok e)
+    (hpre : getp (("node/entry" : String) ++ "/") = .ok [(key, (r, value))]) (hne : value.isEmpty = false)
+    (hsuf : suffix (("node/entry" : String) ++ "/") key = .ok suf) (hpk : fromSlice suf = some nid)
+    (hde : deNode value = .ok entry) (hget : get (mk "node/state" (sz nid)) = .ok (some (ver, b)))
+    (hnet : parse entry.network = .ok net) (hal : ral nid net = .ok al) :
+    KVVPersister.update_node sz mk conv ser put self nid st = put (mk "node/state" (sz nid)) b ∧
+    KVVPersister.get_nodes getp suffix fromSlice deNode sz mk get deState parse ral restore self
+      = .ok [(nid, { key_derivation_style := entry.key_derivation_style, network := entry.network,
+                     state := restore (conv st).invoices (conv st).issued_invoices (conv st).preimages 0
+                       (CoreVelocityControl.«from» (conv st).velocity_control) (CoreVelocityControl.«from» (conv st).fee_velocity_control)
+                       (conv st).dbid_high_water_mark al })] := by
+  constructor
+  · unfold KVVPersister.update_node; simp only [hser, bind, Except.bind]
+  · exact C11_fn_kvv_get_nodes sz mk get self getp suffix fromSlice deNode deState parse ral restore key r value suf b nid entry ver
+      (conv st) net al hpre hne hsuf hpk hde hget (hfmt _ hser) hnet hal
+
+
+/-- a translated `for` loop whose body only ever continues is the monadic fold of its body -/
+theorem loopB_eq_foldlM {α σ : Type} (f : σ → α → Rs.M (Rs.Flow σ Empty)) (g : σ → α → Rs.M σ)
+    (h : ∀ s x, f s x = (g s x >>= fun s' => pure (.next s'))) (l : List α) (s : σ) :
+    Rs.loopB l s f = l.foldlM g s := by
+  induction l generalizing s with
+  | nil => rfl
+  | cons x xs ih =>
+    have ih' := ih
+    unfold Rs.loopB at ih' ⊢
+    unfold Rs.loopM
+    rw [h, List.foldlM_cons]
+    cases hg : g s x with
+    | error e => rfl
+    | ok s' => simpa [bind, Except.bind, pure, Except.pure] using ih' s'
+
+/-- what `get_node_channels` does with one listed entry: a tombstone (empty value) is skipped, any other entry is
+    decoded, converted by `CoreChannelEntry::from` and appended under the channel id taken from the key's suffix -/
+def nodeChannelsStep (suffix : String → String → Rs.M (List Nat)) (cnew : List Nat → ChannelId)
+    (de : List Nat → Rs.M (ChannelEntry ChannelId EnforcementState)) (pfx : String)
+    (res : List (ChannelId × CoreChannelEntry ChannelId EnforcementState)) (kvv : String × (Nat × List Nat)) :
+    Rs.M (List (ChannelId × CoreChannelEntry ChannelId EnforcementState)) :=
+  if kvv.2.2.isEmpty then pure res
+  else suffix pfx kvv.1 >>= fun suf => de kvv.2.2 >>= fun e => pure (res ++ [(cnew suf, CoreChannelEntry.«from» e)])
+
+/-- **C11_fn_kvv_get_node_channels** (the restore of the channels, for any number of entries): `get_node_channels` lists
+    the keys under the node's channel prefix — the prefix of the keys `update_channel` / `new_channel` write — and
+    folds `nodeChannelsStep` over them in the store's order: no live entry is skipped, none is invented, each is
+    converted with all five fields (`C11_fn_kvv_channel_entry_from`), the first decoding error is returned. -/
+theorem C11_fn_kvv_get_node_channels (getp : String → Rs.M (List (String × (Nat × List Nat))))
+    (suffix : String → String → Rs.M (List Nat)) (cnew : List Nat → ChannelId)
+    (de : List Nat → Rs.M (ChannelEntry ChannelId EnforcementState)) :
+    KVVPersister.get_node_channels sz mk getp suffix cnew de self node_id
+      = (getp (mk "channel" (sz node_id) ++ "/") >>= fun l =>
+          l.foldlM (nodeChannelsStep suffix cnew de (mk "channel" (sz node_id) ++ "/")) []) := by
+  unfold KVVPersister.get_node_channels
+  cases hp : getp (mk "channel" (sz node_id) ++ "/") with
+  | error e => simp [hp, bind, Except.bind]
+  | ok l =>
+    simp only [hp, bind, Except.bind]
+    rw [loopB_eq_foldlM _ (nodeChannelsStep suffix cnew de (mk "channel" (sz node_id) ++ "/")) ?h l []]
+    case h =>
+      intro res kvv
+      obtain ⟨key, r, value⟩ := kvv
+      unfold nodeChannelsStep
+      cases hv : value.isEmpty
+      · simp only [Bool.false_eq_true, if_false]
+        cases suffix (mk "channel" (sz node_id) ++ "/") key with
+        | error e => rfl
+        | ok suf => cases de value <;> rfl
+      · simp only [if_true]; rfl
+
+
+/-- **C11_fn_kvv_make_key**: the key makers as they are in the source: `prefix/hex(key)` and `prefix/hex(key1)/hex(key2)`;
+    hence every channel key of a node (`make_key2(CHANNEL_PREFIX, node, id0)`, written by `update_channel` / `new_channel`)
+    starts with exactly the prefix `get_node_channels` lists (`make_key(CHANNEL_PREFIX, node) + "/"`) and continues with the
+    hex of the channel's initial id — what `extract_key_suffix` decodes again. -/
+theorem C11_fn_kvv_make_key (enc : List Nat → String) (p : String) (a b : List Nat) :
+    Gen.FnKvvKeys.make_key enc p a = p ++ "/" ++ enc a ∧
+    Gen.FnKvvKeys.make_key2 enc p a b = (Gen.FnKvvKeys.make_key enc p a ++ "/") ++ enc b := ⟨rfl, rfl⟩
+
+/-- **C11_fn_kvv_passthrough**: the transaction methods of the persister (`enter`, `prepare`, `commit`), `clear_database`
+    and `signer_id` are the store's own (first component of the tuple struct): the persister adds no buffering of its
+    own between a request and the store — what is durable when is the store's transaction (C16). -/
+theorem C11_fn_kvv_passthrough {S F Mutations SignerId : Type} (st : S × F) (e c cl : S → Rs.M Unit) (pr : S → Mutations)
+    (sid : S → SignerId) :
+    Gen.FnKvvPass.KVVPersister.enter e st = e st.1 ∧ Gen.FnKvvPass.KVVPersister.commit c st = c st.1 ∧
+    Gen.FnKvvPass.KVVPersister.clear_database cl st = cl st.1 ∧ Gen.FnKvvPass.KVVPersister.prepare pr st = pr st.1 ∧
+    Gen.FnKvvPass.KVVPersister.signer_id sid st = sid st.1 := ⟨rfl, rfl, rfl, rfl, rfl⟩
+
+/-- non-vacuity of the round trip: identity format, a store that holds the one entry -/
+example : KVVPersister.get_channel (SelfT := Unit) (PublicKey := Nat) (ChannelId := Nat) (EnforcementState := Nat)
+    (fun n => [n]) (fun c => [c]) (fun p a b => p ++ toString a ++ toString b)
+    (fun _ => .ok (some (3, [42]))) (fun _ => .ok (entryOfChannel ⟨77, ⟨1000⟩, 5, some 6⟩)) () 1 5
+    = .ok { channel_value_satoshis := 1000, channel_setup := some ⟨1000⟩, id := some 6, enforcement_state := 77, blockheight := none } := rfl
+
+end Kvv
 end VlsModel.Props.C11Fn
